@@ -118,7 +118,9 @@ func (o *packetScanCmdOpts) getScanRange(dstSubnet *net.IPNet) (*scan.Range, err
 	if o.srcIP != nil {
 		srcIP = o.srcIP
 	}
-	if srcIP == nil {
+	// an IPv6 address (first address of the interface or --srcip) is not a usable source:
+	// To4 would silently turn it into an empty address
+	if srcIP == nil || srcIP.To4() == nil {
 		return nil, errSrcIP
 	}
 
